@@ -117,12 +117,30 @@ def judge(res, g, setname, recs, bgzip, use_outind, scratch, big=False, record_h
         os.makedirs(os.path.join(scratch, "cwd"), exist_ok=True)
         os.chdir(os.path.join(scratch, "cwd"))
         outind = "bare.idx"
+    if use_outind == "symlink":
+        # --outgaf is a symbolic link to a file in another directory; the default index belongs next to the link
+        outind = None
+        os.makedirs(os.path.join(scratch, "store"), exist_ok=True)
+        target = os.path.join(scratch, "store", "run1.gaf" + (".gz" if bgzip else ""))
+        open(target, "wb").close()
+        outp = os.path.join(scratch, "link.gaf" + (".gz" if bgzip else ""))
+        if os.path.lexists(outp):
+            os.remove(outp)
+        os.symlink(target, outp)
     idx_path = os.path.abspath(outind) if outind else (outp + ".gsi")
     for p in (idx_path, os.path.join(scratch, "bare.idx")):
         if os.path.exists(p):
             os.remove(p)
     try:
-        out = sc.run_sort(scratch, gfa_path, gaf, outgaf=outp, outind=outind, bgzip=bgzip)
+        if use_outind == "symlink":
+            from gaftools.cli import sort as _sort
+
+            for pth in (outp + ".gsi", target + ".gsi"):
+                if os.path.exists(pth):
+                    os.remove(pth)
+            out = fw.guarded(_sort.run_sort, gfa=gfa_path, gaf=gaf, outgaf=outp, outind=None, bgzip=bgzip)
+        else:
+            out = sc.run_sort(scratch, gfa_path, gaf, outgaf=outp, outind=outind, bgzip=bgzip)
     finally:
         if cwd is not None:
             os.chdir(cwd)
@@ -136,7 +154,7 @@ def judge(res, g, setname, recs, bgzip, use_outind, scratch, big=False, record_h
         # can re-create everything the process did before it (state leaking between calls)
         CTX["n"] += 1
         case["call_sequence"] = {"spec": CTX["spec"], "tier": CTX["tier"], "index": CTX["n"]}
-    where = f"[{setname}, {'bgzip' if bgzip else 'plain'}{', >64KiB' if big else ''}, {('--outind ' + ('bare.idx (relative)' if use_outind == 'bare' else '<path>')) if use_outind else 'default .gsi'}]"
+    where = f"[{setname}, {'bgzip' if bgzip else 'plain'}{', >64KiB' if big else ''}, {('--outgaf is a symlink, default .gsi' if use_outind == 'symlink' else '--outind ' + ('bare.idx (relative)' if use_outind == 'bare' else '<path>')) if use_outind else 'default .gsi'}]"
     if out.kind != "ok":
         res.fail(f"C10/sort-failed:{out.sig()}", f"{where} sort does not complete: {out.brief()}", case)
         return
@@ -191,6 +209,11 @@ def run_shard(spec, tier, scratch):
 
 def _run(res, spec, tier, scratch):
     g, chains = c09.build(spec["nchrom"])
+    # the process has seen a sort call that failed (a GAF naming a segment the graph does not have) before the valid ones
+    bad_gaf = os.path.join(scratch, "bad.gaf")
+    fw.write_text(bad_gaf, "x\t3\t0\t3\t+\t>nosuchsegment\t3\t0\t3\t3\t3\t60\n")
+    fw.write_text(os.path.join(scratch, "g.gfa"), g.text())
+    sc.run_sort(scratch, os.path.join(scratch, "g.gfa"), bad_gaf, outgaf=os.path.join(scratch, "bad.sorted.gaf"))
     sets = record_sets(g, chains, bounds(tier)["max_steps"])
     for setname, recs in sets:
         if not recs:
@@ -202,7 +225,7 @@ def _run(res, spec, tier, scratch):
                 orders += [recs[k:] + recs[:k] for k in range(1, len(recs), max(1, len(recs) // 12))]
             for order in orders:
                 for bgzip in (False, True):
-                    for use_outind in (False, True) + (("bare",) if order is recs else ()):
+                    for use_outind in (False, True) + (("bare", "symlink") if order is recs else ()):
                         judge(res, g, setname, order, bgzip, use_outind, scratch)
         else:
             big = vi.pad_records(recs[:40], 200_000)
